@@ -561,7 +561,10 @@ class Run:
                                 f"= {exp_thr} (t={t0}, k={k}, m={mean}, a={lr})")
                     if f:
                         return f
-                if got["thr"] < t0 or (got["thr"] > max(x[1] for x in a) and not close(got["thr"], max(x[1] for x in a), dt)):
+                # (both bounds up to the rounding of the recurrence: a one-ulp excursion below t or above the best
+                # accepted objective is float arithmetic, 7.3)
+                if (got["thr"] < t0 and not close(got["thr"], t0, dt, scale)) or \
+                        (got["thr"] > max(x[1] for x in a) and not close(got["thr"], max(x[1] for x in a), dt)):
                     f = self.F_("C05", "oracle", f"{where}: cell {c} threshold {got['thr']} outside [t, best accepted]")
                     if f:
                         return f
